@@ -2,6 +2,7 @@ package rules
 
 import (
 	"go/token"
+	"go/types"
 	"strings"
 
 	. "abverif/internal/engine"
@@ -189,6 +190,7 @@ func C08(c *Ctx) {
 	c.c08Deprecated(mw, full, two)
 	// (5)
 	c.sentinelTransparent("C08.sentinel")
+	c.anonymousIsNotFound("C08.anonymous")
 }
 
 func (c *Ctx) c08Atoms(full, two int64) {
@@ -221,6 +223,9 @@ func (c *Ctx) c08Atoms(full, two int64) {
 		}
 	}
 	r.Check(ok, "C08.atoms", FuncName(hb), "reqs&req==req", c.P.Pos(hb.Pos()), "bit test", "hasBit is not reqs&req == req")
+	gsf := c.P.Func(fnGetSession)
+	okPT, whyPT := c.presencePassThrough(gsf, 0)
+	r.Check(okPT, "C08.atoms", FuncName(gsf), "GetSession = ClientState.Get", c.P.Pos(gsf.Pos()), "value and presence flag handed through unaltered", "GetSession does not hand the session state's answer through unaltered: "+whyPT)
 	for _, a := range []struct {
 		fn, key string
 		neg     bool
@@ -246,6 +251,75 @@ func (c *Ctx) c08Atoms(full, two int64) {
 		}
 		r.Check(okA, "C08.atoms", a.fn, "presence of session["+a.key+"]", c.P.Pos(fn.Pos()), map[bool]string{true: "negated presence", false: "presence"}[a.neg], a.fn+" is not the "+map[bool]string{true: "negated ", false: ""}[a.neg]+"presence of session["+a.key+"]")
 	}
+}
+
+// presencePassThrough: GetSession answers exactly what the session's
+// ClientState.Get answers — the value and the presence flag unaltered — or
+// ("", false) when no state was loaded. The half-auth and 2FA marks are
+// presence tests: reinterpreting an empty value as absent (or the reverse)
+// changes what the middleware admits.
+func (c *Ctx) presencePassThrough(fn *ssa.Function, depth int) (bool, string) {
+	if depth > 3 {
+		return false, "call chain too deep"
+	}
+	isSource := func(call ssa.CallInstruction) bool {
+		cc := call.Common()
+		if cc.IsInvoke() && cc.Method.Name() == "Get" && strings.HasSuffix(cc.Value.Type().String(), ".ClientState") {
+			return true
+		}
+		g := StaticCallee(call)
+		if g != nil && c.inRepo(g) && g.Signature.Results().Len() == 2 {
+			ok, _ := c.presencePassThrough(g, depth+1)
+			return ok
+		}
+		return false
+	}
+	var sources []ssa.CallInstruction
+	for _, call := range Calls(fn) {
+		if call.Common().Signature().Results().Len() == 2 && isSource(call) {
+			sources = append(sources, call)
+		}
+	}
+	if len(sources) == 0 {
+		return false, "no ClientState.Get reached"
+	}
+	nPass := 0
+	for _, b := range fn.Blocks {
+		ret, ok := b.Instrs[len(b.Instrs)-1].(*ssa.Return)
+		if !ok || len(ret.Results) != 2 {
+			continue
+		}
+		c0, i0 := CallOf(ret.Results[0])
+		c1, i1 := CallOf(ret.Results[1])
+		if c0 != nil && c0 == c1 && i0 == 0 && i1 == 1 {
+			isSrc := false
+			for _, sc := range sources {
+				if ssa.Value(sc.Value()) == c0.Value() {
+					isSrc = true
+				}
+			}
+			if isSrc {
+				nPass++
+				continue
+			}
+		}
+		s, isS := ConstStr(ret.Results[0])
+		bv, isB := ConstBool(ret.Results[1])
+		if isS && isB && s == "" && !bv {
+			// absent: only where the state was not consulted
+			for _, sc := range sources {
+				if Reaches(sc.(ssa.Instruction), ret) {
+					return false, "answers absent at " + c.P.InstrPos(ret) + " after the state was consulted"
+				}
+			}
+			continue
+		}
+		return false, "return at " + c.P.InstrPos(ret) + " is neither the state's own answer nor (\"\", false)"
+	}
+	if nPass == 0 {
+		return false, "the state's answer is never returned"
+	}
+	return true, ""
 }
 
 func (c *Ctx) c08Fail(fail *ssa.Function) {
@@ -451,5 +525,64 @@ func (c *Ctx) c08Deprecated(mw2 *ssa.Function, full, two int64) {
 		r.Check(okFR, "C08.deprecated", name, "failResponse", posf(c, call), "redirect iff redirectToLogin", "failure response is not RespondRedirect exactly when redirectToLogin")
 		// mountPathed passed through
 		r.Check(Arg(call, 1) == ssa.Value(mm.Params[1]) && Arg(call, 0) == ssa.Value(mm.Params[0]), "C08.deprecated", name, "pass-through", posf(c, call), "ab and mountPathed passed through", "ab/mountPathed are not passed through")
+	}
+}
+
+// anonymousIsNotFound: a session that names nobody (no uid, or an empty one)
+// must come out of CurrentUser/LoadCurrentUser as ErrUserNotFound without
+// asking storage: the middleware's refusal (404/401/redirect) hangs on that
+// sentinel, and Storage.Load("") may answer anything (an error gives a 500, a
+// stray record lets the handler run without a user).
+func (c *Ctx) anonymousIsNotFound(rule string) {
+	r := c.R
+	for _, fname := range []string{fnCurrentUser, fnLoadCurrentUser} {
+		fn := c.P.Func(fname)
+		name := FuncName(fn)
+		n := 0
+		for _, call := range Calls(fn) {
+			cal := Callee(call)
+			g := StaticCallee(call)
+			if cal != fnLoad && !(g != nil && c.inRepo(g)) {
+				continue
+			}
+			for _, a := range call.Common().Args {
+				if bt, ok := a.Type().Underlying().(*types.Basic); !ok || bt.Kind() != types.String {
+					continue
+				}
+				if !HasOrigin(c.Origins(a), func(o Origin) bool {
+					return o.Kind == "call" && (strings.HasPrefix(o.Name, fnCurrentUserID+"#") || strings.HasPrefix(o.Name, fnLoadCurrentUserID+"#"))
+				}) {
+					continue
+				}
+				n++
+				ok := HasFact(FactsAtInstr(call.(ssa.Instruction)), func(f Fact) bool { return f.SaysNonEmpty(a) })
+				r.Check(ok, rule, name, "load only a non-empty pid", posf(c, call), "the user is loaded only under len(pid) != 0", "the user is loaded from storage although the session's pid may be empty: an anonymous request is answered by whatever Storage.Load(\"\") returns instead of ErrUserNotFound")
+			}
+		}
+		if n == 0 {
+			r.Unknown(rule, name, "load of the session's pid", "-", "no call handing the session's pid to storage was found")
+			continue
+		}
+		// the empty edge answers with the sentinel
+		for _, b := range fn.Blocks {
+			ret, ok := b.Instrs[len(b.Instrs)-1].(*ssa.Return)
+			if !ok || len(ret.Results) != 2 {
+				continue
+			}
+			empty := false
+			for _, f := range FactsAtInstr(ret) {
+				rel := f.Rel()
+				if x := StrLenValue(rel.X); x != nil || rel.Op == token.EQL {
+					if f.SaysEmpty(x) || (rel.X != nil && f.SaysEmpty(rel.X)) {
+						empty = true
+					}
+				}
+			}
+			if !empty {
+				continue
+			}
+			g := loadOfGlobal(ret.Results[1])
+			r.Check(g != nil && g.Name() == "ErrUserNotFound", rule, name, "empty pid => ErrUserNotFound", posf(c, ret), "returns the sentinel", "the empty-pid path does not return ErrUserNotFound")
+		}
 	}
 }
